@@ -6,7 +6,7 @@ export GOFLAGS=-mod=mod GOPROXY=off GOSUMDB=off GOTOOLCHAIN=local
 cd /verif
 DIR=$1; shift
 [ -z "$(git -C /repo status --porcelain)" ] || { echo "/repo is not clean"; exit 2; }
-IDS=${@:-$(ls $DIR | grep -E '^(C[0-9]+-n[0-9]+|N2-[A-Z0-9]+)$')}
+IDS=${@:-$(ls $DIR | grep -E '^(C[0-9]+-n[0-9]+|N2-[A-Z0-9]+|N3-C[0-9]+-[0-9]+)$')}
 PROPS=$(python3 -c "import json;print(' '.join(c['property_id'] for c in json.load(open('MANIFEST.json'))['checks']))")
 for s in $IDS; do
   d=$DIR/$s
